@@ -27,6 +27,9 @@ def _cfg_sock(tier):
             out.append({'n': n, 'queries': q})
             if n >= 2:
                 out.append({'n': n, 'queries': q, 'calm': 1})      # the second wind given is a zero-speed (calm) segment
+                # until-distances that carry DIFFERENT unit labels: assigned to the public field after construction, or each wind built under another preferred unit
+                out.append({'n': n, 'queries': q, 'labels': ('assigned', ['Meter', 'Yard', 'Foot', 'Kilometer'][:n])})
+                out.append({'n': n, 'queries': q, 'labels': ('preferred', ['Yard', 'Meter', 'Inch', 'Foot'][:n])})
     return out
 
 
@@ -41,13 +44,26 @@ def _drive(sock, x, state):
          must_reach=['check:segment_in_force', 'switched', 'beyond_last', 'two_boundaries_in_one_step'],
          bounds='n = 0..3 (quick) / 0..4 (thorough) winds with symbolic until-distances in [0, 1e5] ft in every input order incl. duplicates; '
                 'n+2 (n+3) queries at symbolic non-decreasing positions starting at x = 0 (as _integrate issues them)',
-         assumptions=['wind vectors are identified by concrete distinct speeds 1..n at direction 0 (the sock only copies the vector); one variant makes the second wind a calm (zero-speed) segment'])
-def c12_sock(ctx, n, queries, calm=None):
+         assumptions=['wind vectors are identified by concrete distinct speeds 1..n at direction 0 (the sock only copies the vector); variants: the second wind a calm (zero-speed) segment; until-distances carrying different unit labels (assigned after construction / each wind built under another preferred unit)'])
+def c12_sock(ctx, n, queries, calm=None, labels=None):
     p, tc = pybc(), _tc()
     U = p.Unit
     until = [ctx.real(f'until{i}', 0, 1e5) for i in range(n)]
     speed = lambda i: 0.0 if i == calm else float(i + 1)
-    winds = [p.Wind(U.FPS(speed(i)), U.Radian(0.0), U.Foot(until[i])) for i in range(n)]
+    if labels is None:
+        winds = [p.Wind(U.FPS(speed(i)), U.Radian(0.0), U.Foot(until[i])) for i in range(n)]
+    elif labels[0] == 'assigned':
+        winds = [p.Wind(U.FPS(speed(i)), U.Radian(0.0), U.Foot(until[i])) for i in range(n)]
+        for i, w in enumerate(winds):
+            LU = getattr(U, labels[1][i])
+            w.until_distance = LU(U.Foot(until[i]) >> LU)
+    else:
+        from harness.common import with_preferred
+        winds = []
+        for i in range(n):
+            LU = getattr(U, labels[1][i])
+            with with_preferred(distance=LU):
+                winds.append(p.Wind(U.FPS(speed(i)), U.Radian(0.0), U.Foot(until[i])))
     if (n + queries) % 2:
         shot = p.Shot(None, None, atmo=_atmo(p), winds=winds)
     else:
